@@ -243,6 +243,7 @@ static int cmd_batch(int argc, char **argv)
                 nondet++;
                 QJsonObject o;
                 o["kind"] = "nondeterminism";
+                o["both_ok"] = r.v.ok && r2.v.ok;
                 o["index"] = (qint64)index;
                 o["seed"] = QString::number(seed);
                 o["hash1"] = QString::number(r.hash, 16);
